@@ -111,6 +111,16 @@ func vc13AllFiles() (files []string) {
 func vc13First(name string, ver int) (h string) { return fmt.Sprintf("first-%s-v%d.test", name, ver) }
 func vc13Last(name string, ver int) (h string)  { return fmt.Sprintf("last-%s-v%d.test", name, ver) }
 
+// vc13ProbeHosts is the number of hosts in every version that only the
+// mid-transfer probe asks for, each at most once, so that no result cache can
+// answer for the list.
+const vc13ProbeHosts = 4
+
+// vc13ProbeHost returns the i-th probe host of a version of a list.
+func vc13ProbeHost(name string, ver, i int) (h string) {
+	return fmt.Sprintf("probe-%s-v%d-%d.test", name, ver, i)
+}
+
 // vc13Body returns the complete content of version ver of slot s with fill
 // filler entries between the first and the last marker.
 func vc13Body(s *vc13Slot, ver, fill int, flavor string, pad int) (b []byte) {
@@ -119,8 +129,12 @@ func vc13Body(s *vc13Slot, ver, fill int, flavor string, pad int) (b []byte) {
 		fill = max(fill, 4)
 	}
 
-	hosts := make([]string, 0, fill+2)
+	hosts := make([]string, 0, fill+2+vc13ProbeHosts)
 	hosts = append(hosts, vc13First(s.name, ver))
+	for i := 0; i < vc13ProbeHosts; i++ {
+		hosts = append(hosts, vc13ProbeHost(s.name, ver, i))
+	}
+
 	for i := 0; i < fill; i++ {
 		hosts = append(hosts, fmt.Sprintf("fill-%s-v%d-%04d.test", s.name, ver, i))
 	}
@@ -225,6 +239,9 @@ func vc13SvcBody(hosts []string, ver int, flavor string, pad int) (b []byte) {
 	switch flavor {
 	case "", "valid":
 		// Nothing to add.
+	case "emptyrules":
+		// Valid: a service without rules is reported, not refused.
+		svcs = append(svcs, map[string]any{"id": "vc13_svc_empty", "name": "Empty", "rules": []string{}})
 	case "badid":
 		svcs = append(svcs, map[string]any{"id": "bad id/x", "name": "Bad", "rules": []string{"||bad-svc.test^"}})
 	case "nilentry":
@@ -385,6 +402,23 @@ func (l *vc13ErrLog) take() (msgs []string) {
 type vc13Units struct {
 	strg   *filterstorage.Default
 	hashes map[string]*hashprefix.Filter
+
+	// mu protects cancels, the cancel functions of the refreshes that are
+	// running now.
+	mu      sync.Mutex
+	cancels map[int]context.CancelFunc
+	nextID  int
+}
+
+// cancelRunning cancels the contexts of all refreshes that are running now, as
+// a caller that gives up (shutdown, its own deadline) does.
+func (u *vc13Units) cancelRunning() {
+	u.mu.Lock()
+	defer u.mu.Unlock()
+
+	for _, c := range u.cancels {
+		c()
+	}
 }
 
 // vc13NewUnits creates the storage and the hash-prefix filters over cache
@@ -512,38 +546,86 @@ var vc13HashOrder = []string{"adult", "danger", "newreg"}
 
 // refreshAll runs one refresh of everything.  A panic of the code under test
 // is returned as pnc.
-func (u *vc13Units) refreshAll(el *vc13ErrLog, initial bool, ctxTimeout time.Duration) (pnc any) {
+//
+// If parallel is set, the storage and the three filters refresh at the same
+// time, as their four refresh workers may in production.
+func (u *vc13Units) refreshAll(el *vc13ErrLog, initial bool, ctxTimeout time.Duration, parallel bool) (pnc any) {
+	pncMu := &sync.Mutex{}
 	guarded := func(f func(ctx context.Context)) {
 		defer func() {
-			if v := recover(); v != nil && pnc == nil {
-				pnc = v
+			if v := recover(); v != nil {
+				pncMu.Lock()
+				defer pncMu.Unlock()
+
+				if pnc == nil {
+					pnc = v
+				}
 			}
 		}()
 
 		ctx, cancel := context.WithTimeout(context.Background(), ctxTimeout)
 		defer cancel()
 
+		u.mu.Lock()
+		if u.cancels == nil {
+			u.cancels = map[int]context.CancelFunc{}
+		}
+		u.nextID++
+		id := u.nextID
+		u.cancels[id] = cancel
+		u.mu.Unlock()
+
+		defer func() {
+			u.mu.Lock()
+			defer u.mu.Unlock()
+
+			delete(u.cancels, id)
+		}()
+
 		f(ctx)
 	}
 
-	guarded(func(ctx context.Context) {
-		if initial {
-			// RefreshInitial does not report to the error collector.
-			el.add(u.strg.RefreshInitial(ctx))
-		} else {
-			_ = u.strg.Refresh(ctx)
-		}
-	})
-
-	for _, name := range vc13HashOrder {
+	jobs := []func(){func() {
 		guarded(func(ctx context.Context) {
 			if initial {
-				el.add(u.hashes[name].RefreshInitial(ctx))
+				// RefreshInitial does not report to the error collector.
+				el.add(u.strg.RefreshInitial(ctx))
 			} else {
-				_ = u.hashes[name].Refresh(ctx)
+				_ = u.strg.Refresh(ctx)
 			}
 		})
+	}}
+
+	for _, name := range vc13HashOrder {
+		jobs = append(jobs, func() {
+			guarded(func(ctx context.Context) {
+				if initial {
+					el.add(u.hashes[name].RefreshInitial(ctx))
+				} else {
+					_ = u.hashes[name].Refresh(ctx)
+				}
+			})
+		})
 	}
+
+	if !parallel {
+		for _, j := range jobs {
+			j()
+		}
+
+		return pnc
+	}
+
+	wg := &sync.WaitGroup{}
+	for _, j := range jobs {
+		wg.Add(1)
+		go func() {
+			defer wg.Done()
+
+			j()
+		}()
+	}
+	wg.Wait()
 
 	return pnc
 }
@@ -696,6 +778,16 @@ func vc13ReadFiles(dir string) (files map[string][]byte, inodes map[string]uint6
 	}
 
 	return files, inodes, nil
+}
+
+// vc13AgeFiles sets the modification time of every cache file under dir one
+// hour back, so that the next refresh downloads again whatever the wall clock
+// did in between (the harness owns the staleness, not the clock).
+func vc13AgeFiles(dir string) {
+	old := time.Now().Add(-1 * time.Hour)
+	for _, name := range vc13AllFiles() {
+		_ = os.Chtimes(filepath.Join(dir, name), old, old)
+	}
 }
 
 // vc13Strays returns the names in dir that are not cache files.
